@@ -245,6 +245,51 @@ func main() {
 			seq = append(seq, lastPool[rng.Intn(len(lastPool))])
 			one(seq)
 		}
+		// twins: statements that differ only in the letter case or the blanks INSIDE identifiers, texts and bindings have
+		// different meanings; parse one after the other on the same parser, both orders
+		for _, a := range stmtCorpus {
+			for _, b := range twins(a) {
+				one([]string{a, b})
+				one([]string{b, a})
+			}
+		}
+		// long histories: many rejected statements on one parser, valid statements in between (state that accumulates
+		// slowly, e.g. a counter that is not restored on an error path)
+		{
+			longN := 1500
+			if *n > 5000 {
+				longN = 20000
+			}
+			sg := grammar.SemanticBQL()
+			p, _ := grammar.NewParser(sg)
+			var rejected []string
+			for _, x := range pool {
+				fp, _ := grammar.NewParser(grammar.SemanticBQL())
+				if parseDump(fp, x) == "ERR" {
+					rejected = append(rejected, x)
+				}
+			}
+			rejected = append(rejected, `create graph ?a, ?b, ?c, ?d, ;`, `select ?s from ?a where {?s "p"@[] ?o . ?o "q"@[] ?z . };`,
+				`select ?s from ?a where {?s "p"@[] ?o} having ((((?s = ?o) and (?s = ?o)) or (?s = ?o)) and ;`)
+			for i := 0; i < longN && len(rejected) > 0; i++ {
+				parseDump(p, rejected[rng.Intn(len(rejected))])
+				if i%100 == 99 {
+					for k := 0; k < 3; k++ {
+						last := stmtCorpus[rng.Intn(len(stmtCorpus))]
+						shared := parseDump(p, last)
+						fp, _ := grammar.NewParser(grammar.SemanticBQL())
+						fresh := parseDump(fp, last)
+						res := stRes{Kind: "state", Seq: []string{fmt.Sprintf("<%d rejected statements on this parser>", i+1), last}, Same: shared == fresh, Shared: shared, Fresh: fresh}
+						if !res.Same {
+							const flush = `select count(?a) as ?b from ?g where { /u<a> "p"@[] /u<b> };`
+							parseDump(p, flush)
+							res.SameAfterFlush = parseDump(p, last) == fresh
+						}
+						enc.Encode(res)
+					}
+				}
+			}
+		}
 		// determinism: the meaning of a statement is a function of its text: parse it 25 times on fresh parsers
 		for _, txt := range lastPool {
 			fp0, _ := grammar.NewParser(grammar.SemanticBQL())
@@ -503,4 +548,58 @@ var repeatedKeyCorpus = []string{
 	`select ?a, ?b from ?g where {?a ?b ?c} group by ?a, ?b, ?a, ?b;`,
 	`select ?a, ?b, ?c from ?g where {?a ?b ?c} order by ?a, ?b, ?c, ?a;`,
 	`select ?a, ?b, ?c from ?g where {?a ?b ?c} order by ?a asc, ?b desc, ?a desc, ?c;`,
+}
+
+// twins returns variants of a statement that differ from it only in the letter case or the blanks inside node ids,
+// quoted texts / predicate ids and binding names (meaning-bearing parts), never in keywords or token layout.
+func twins(st string) []string {
+	var out []string
+	up := func(open, close byte) string {
+		b := []byte(st)
+		in := false
+		changed := false
+		for i := 0; i < len(b); i++ {
+			if !in && b[i] == open {
+				in = true
+				continue
+			}
+			if in && b[i] == close {
+				in = false
+				continue
+			}
+			if in && b[i] >= 'a' && b[i] <= 'z' {
+				b[i] -= 32
+				changed = true
+				in = open != '?' || true
+				if open == '?' {
+					// binding: upper-case only the first letter, then stop at the first non-word byte
+					in = false
+				}
+			}
+		}
+		if !changed {
+			return ""
+		}
+		return string(b)
+	}
+	for _, v := range []string{up('<', '>'), up('?', ' ')} {
+		if v != "" && v != st {
+			out = append(out, v)
+		}
+	}
+	// text literal / predicate id: upper-case the first letter after an opening quote, and double a blank inside quotes
+	b := []byte(st)
+	inq := false
+	for i := 0; i < len(b); i++ {
+		if b[i] == '"' {
+			inq = !inq
+			if inq && i+1 < len(b) && b[i+1] >= 'a' && b[i+1] <= 'z' {
+				c := append([]byte{}, b...)
+				c[i+1] -= 32
+				out = append(out, string(c))
+				break
+			}
+		}
+	}
+	return out
 }
